@@ -383,6 +383,38 @@ func cmdCheck(prop, tier string) int {
 		}
 	}
 	sort.Strings(missing)
+	// A functional obligation of the baseline that is no longer generated means
+	// its anchor (function, call site, loop, named local) is gone: the contract
+	// is stale and the property is no longer decided by it. Reported, not
+	// silently dropped. Sweep obligations (index, slice, nil, ...) and callee
+	// preconditions at call sites legitimately disappear with the code they
+	// guard and are only listed in the evidence.
+	var staleObs []string
+	for _, n := range missing {
+		parts := strings.Split(n, "#")
+		if len(parts) < 2 {
+			continue
+		}
+		cls := parts[1]
+		if i := strings.Index(cls, ":"); i >= 0 {
+			cls = cls[:i]
+		}
+		switch cls {
+		case "ensures", "assert", "callsites", "frame", "inv-entry", "inv-preserved", "vacuity":
+		default:
+			continue
+		}
+		o := &ObSummary{Name: n, Class: cls, Fn: parts[0], Desc: "obligation of the baseline is no longer generated: its anchor (function, call site, loop or named value) is gone"}
+		if kf := matchKnown(known, prop, o); kf != nil {
+			continue
+		}
+		staleObs = append(staleObs, n)
+		nObl++
+		if len(staleObs) <= 20 {
+			rp, _ := writeReplay(o, "stale-anchor", "discharged in the baseline, not generated now")
+			violations = append(violations, fmt.Sprintf("VIOLATION property=%s replay=%s obligation=%s (anchor gone) no-failing-input-found", prop, rp, n))
+		}
+	}
 
 	for _, l := range knownLines {
 		fmt.Println(l)
@@ -425,6 +457,7 @@ func cmdCheck(prop, tier string) int {
 		"known_finding_obligations": knownObs,
 		"undecided_not_counted":    undecidedObs,
 		"baseline_obligations_missing": missing,
+		"stale_functional_obligations": staleObs,
 		"contract_mirror_used":     s.fallbackContracts,
 		"explanation":              "obligations = named proof obligations (requires at call sites, ensures, loop invariants, safety sweep, vacuity) of the functions under contract serving this property; each is discharged when every path instance is unsat. Obligations matched by a known finding or never discharged before are listed separately and not counted.",
 	}
